@@ -45,9 +45,13 @@ def run(chk, replay=None):
     rng = random.Random(chk.seed)
     th = chk.tier == 'thorough'
     v = streams.vocab()
+    table_words = set(v['all'])
     families = [('^(ssn|email|name)$', lambda n: n in ('ssn', 'email', 'name')), ('(?i)SSN|Tags', lambda n: re.search('(?i)SSN|Tags', n) is not None),
                 ('uf_', lambda n: 'uf_' in n), ('^addr', lambda n: n.startswith('addr')), ('^zzz$', lambda n: n == 'zzz'),
-                ('sn', lambda n: 'sn' in n), ('ag', lambda n: 'ag' in n), ('mail|core1$', lambda n: re.search('mail|core1$', n) is not None)]
+                ('sn', lambda n: 'sn' in n), ('ag', lambda n: 'ag' in n), ('mail|core1$', lambda n: re.search('mail|core1$', n) is not None),
+                # expressions that ALSO match names of operators and of their arguments (from, as, into, coll, limit, numCandidates, subType ...): those are names on the path like any other
+                ('^(from|as|to|into|coll|db)$', lambda n: n in ('from', 'as', 'to', 'into', 'coll', 'db')), ('(?i)id|limit', lambda n: re.search('(?i)id|limit', n) is not None),
+                ('^\\$?(lookup|match|in|set|limit|skip)$|Type$', lambda n: re.search(r'^\$?(lookup|match|in|set|limit|skip)$|Type$', n) is not None)]
     chk.rule = ("grammar-generated find / update / delete / insert / aggregate lines in which a subset of the user field names matches R, every operator wrapper and array nesting between the "
                 "matching name and the literal; regexp families: anchored alternatives, case-insensitive, substring, prefix, no match; every literal class; "
                 "non-trivial = distinct (regexp, line) pairs containing at least one matching and one non-matching name")
@@ -78,12 +82,16 @@ def run(chk, replay=None):
                 fullv = get_by(tfull, ip)
                 full_redacts = fullv != val
                 match = any(pred(key) for key in kp)
+                # inside an Atlas Search stage the keys are operator and argument words (`in`, `value`, `operator`, `$uuid` ...), the FIELD names are given as `path`
+                # values: a regexp that happens to match such a word names no field there (the per-operator rule decides, and may redact more - never asked for less)
+                if srch and not any(pred(key) for key in kp if key not in table_words and not key.startswith('$')): match_field = False
+                else: match_field = match
                 sibmatch = bool(sib) and any(x.startswith('$') and pred(x[1:]) for x in sib)
                 case = {'re': rx, 'path': list(kp), 'value': str(val)[:80], 'input': l.decode('utf-8', 'replace')[:2500]}
-                if ((match and full_redacts and not changed) or (not match and not sibmatch and not srch and changed)) and not getattr(chk, '_shrunk', False):
+                if ((match_field and full_redacts and not changed) or (not match and not sibmatch and not srch and changed)) and not getattr(chk, '_shrunk', False):
                     chk._shrunk = True
                     from vlib import shrink
-                    want_missed = (match and full_redacts and not changed)
+                    want_missed = (match_field and full_redacts and not changed)
                     def fails(b, cfg=cfg, pred=pred, want_missed=want_missed):
                         t = jtree.parse(b)
                         o, f2 = shrink.impl_line(cfg, b), shrink.impl_line(Cfg(nums=True, bools=True), b)
@@ -92,7 +100,7 @@ def run(chk, replay=None):
                         try:
                             for ip2, kp2, k2, val2, srch2, sib2 in zone_paths(t):
                                 ch2, fr2 = get_by(to, ip2) != val2, get_by(tf, ip2) != val2
-                                m2 = any(pred(key) for key in kp2)
+                                m2 = any(pred(key) for key in kp2) and not (srch2 and not any(pred(key) for key in kp2 if key not in table_words and not key.startswith('$')))
                                 sm2 = bool(sib2) and any(x.startswith('$') and pred(x[1:]) for x in sib2)
                                 if want_missed and m2 and fr2 and not ch2: return True
                                 if not want_missed and not m2 and not sm2 and not srch2 and ch2: return True
@@ -101,7 +109,7 @@ def run(chk, replay=None):
                         return False
                     sb = shrink.shrink_line(l, fails)
                     case = dict(case, shrunk_input=sb.decode('utf-8', 'replace'), shrunk_output=str(shrink.impl_line(cfg, sb))[:600])
-                if match and full_redacts and not changed:
+                if match_field and full_redacts and not changed:
                     chk.violate('a literal under a matching field name is not redacted', case, tags=['missed'] + (['search'] if srch else []) + (['vectorsearch_filter'] if any(kp[i:i + 2] == ('$vectorSearch', 'filter') for i in range(len(kp))) else []))
                 if not match and not sibmatch and not srch and changed:
                     chk.violate('a literal whose path contains no matching name is altered', dict(case, new=str(get_by(tout, ip))[:80]), tags=['overredacted'])
